@@ -72,6 +72,7 @@ type ChanV struct {
 type RangeIter struct {
 	M     *MapV
 	Order []int
+	Keys  []Value // the keys present when the iteration started (entries deleted meanwhile are skipped)
 	Str   Value
 	Pos   int
 }
